@@ -62,6 +62,28 @@ def harness_files():
     return res
 
 
+def expand_paste(repo, text):
+    """`//@paste file=<f> fn=<name> [impl=<T>] :: <anchor> || <anchor>` lines in a harness file are replaced by
+    the statements of the real function that start at the anchors (verbatim; same extractor as the V engine)."""
+    from .extract import extract_stmts, parse_kv
+    out = []
+    for line in text.split('\n'):
+        m = re.match(r'\s*//@paste\s+(.*?)\s*::\s*(.*)$', line)
+        if not m:
+            out.append(line)
+            continue
+        kv = parse_kv(m.group(1))
+        anchors = [a.strip() for a in m.group(2).split('||')]
+        r = extract_stmts(repo, dict(file=kv['file'], src_fn=kv['fn'], impl=kv.get('impl'), anchors=anchors, ret=None,
+                                     wrapper_sig='', directives=[]))
+        body = r['text']
+        inner = body[body.index('{') + 1:body.rindex('}')]
+        out.append(f"    // ---- pasted verbatim from {kv['file']} fn {kv['fn']} ----")
+        out.append(inner.rstrip())
+        out.append("    // ---- end paste ----")
+    return '\n'.join(out)
+
+
 def sync_mirror(repo, crates=None):
     """rsync the working tree into the mirror and inject the harness modules (add-only)."""
     os.makedirs(MIRROR, exist_ok=True)
@@ -80,7 +102,7 @@ def sync_mirror(repo, crates=None):
         src = open(f"{repo}/{t}").read()
         for name in names:
             src += f'\n#[cfg(kani)]\n#[path = "__verif_kani_{name}.rs"]\nmod __verif_kani_{name};\n'
-            _write_if_changed(f"{os.path.dirname(MIRROR + '/' + t)}/__verif_kani_{name}.rs", open(hf[name]['path']).read())
+            _write_if_changed(f"{os.path.dirname(MIRROR + '/' + t)}/__verif_kani_{name}.rs", expand_paste(repo, open(hf[name]['path']).read()))
         _write_if_changed(f"{MIRROR}/{t}", src)
     return hf
 
